@@ -157,6 +157,13 @@ type FnGen struct {
 	fspec      *frameSpec
 	// non-escaping local cells of the function under verification
 	stackCells []stackCell
+	lateCells  []lateCell      // allocations that escape only at known instructions (flow-sensitive privacy)
+	curIns     ssa.Instruction // instruction of the top frame being translated
+}
+
+type lateCell struct {
+	stackCell
+	sites []ssa.Instruction
 }
 
 type stackCell struct {
@@ -723,6 +730,9 @@ func (fg *FnGen) runBlocks(fr *Frame, entry *State, entryReach *Term) {
 			st = fg.enterLoop(fr, li, st)
 		}
 		for _, ins := range b.Instrs {
+			if fr.top {
+				fg.curIns = ins
+			}
 			st = fg.step(fr, b, ins, st)
 			if st == nil {
 				break
